@@ -119,8 +119,17 @@ def _xgrid(ev, grid, log=True, **kw):
 
 
 def _interpolator(ev, xgrid, degree, mode_N=False, **kw):
-    basis = [S.record(f"bf{j}", poly_number=j, is_below_x=S._NativeFn(lambda x: False)) for j in range(len(xgrid.attrs["raw"]))]
-    o = S.record("InterpolatorDispatcher", xgrid=xgrid, degree=degree)
+    below_calls = []
+
+    def mk_below(j):
+        def is_below_x(x):
+            below_calls.append((j, S.num_norm(x)))
+            return False  # the analysed path is the one on which the basis function contributes
+
+        return S._NativeFn(is_below_x)
+
+    basis = [S.record(f"bf{j}", poly_number=j, is_below_x=mk_below(j)) for j in range(len(xgrid.attrs["raw"]))]
+    o = S.record("InterpolatorDispatcher", xgrid=xgrid, degree=degree, _below_calls=below_calls)
     o.store["__list__"] = basis
     o.attrs["to_dict"] = S._NativeFn(lambda: {"xgrid": {"grid": list(xgrid.attrs["raw"]), "log": xgrid.attrs["log"]},
                                                "polynomial_degree": degree, "is_log": xgrid.attrs["log"]})
